@@ -99,6 +99,16 @@ func (c *Ctx) Sample(v interface{}) {
 	}
 }
 
+// outRoot is where evidence/ and replays/ are written ("" = verifRoot).
+var outRoot string
+
+func outDir() string {
+	if outRoot != "" {
+		return outRoot
+	}
+	return verifRoot
+}
+
 type checkFn func(c *Ctx)
 
 var registry = map[string]checkFn{}
@@ -175,14 +185,14 @@ func (c *Ctx) finish() int {
 	c.Ev.Violations = len(fresh)
 	c.Ev.Coverage["known_finding_hits"] = len(c.viol) - len(fresh)
 	if c.Replay == "" {
-		os.MkdirAll(filepath.Join(verifRoot, "evidence"), 0o755)
+		os.MkdirAll(filepath.Join(outDir(), "evidence"), 0o755)
 		b, _ := json.MarshalIndent(c.Ev, "", " ")
 		if len(c.fatal) == 0 || len(fresh) > 0 {
-			os.WriteFile(filepath.Join(verifRoot, "evidence", c.ID+".json"), b, 0o644)
+			os.WriteFile(filepath.Join(outDir(), "evidence", c.ID+".json"), b, 0o644)
 		}
 	}
 	// report at most 10 violations, each with a replay file
-	os.MkdirAll(filepath.Join(verifRoot, "replays"), 0o755)
+	os.MkdirAll(filepath.Join(outDir(), "replays"), 0o755)
 	sort.SliceStable(fresh, func(i, j int) bool { return len(fresh[i].Source) < len(fresh[j].Source) })
 	for i, v := range fresh {
 		if i >= 10 {
@@ -190,7 +200,7 @@ func (c *Ctx) finish() int {
 		}
 		rb, _ := json.MarshalIndent(map[string]interface{}{"property": c.ID, "violation": v}, "", " ")
 		h := sha1.Sum(rb)
-		path := filepath.Join(verifRoot, "replays", fmt.Sprintf("%s-%x.json", c.ID, h[:6]))
+		path := filepath.Join(outDir(), "replays", fmt.Sprintf("%s-%x.json", c.ID, h[:6]))
 		os.WriteFile(path, rb, 0o644)
 		fmt.Printf("VIOLATION property=%s replay=%s\n", c.ID, path)
 		fmt.Printf("  what: %s\n", v.What)
@@ -238,6 +248,15 @@ func main() {
 		verifRoot = r
 	}
 	c.Bin = filepath.Join(verifRoot, "bin", "poryscript")
+	if b := os.Getenv("VERIF_BIN"); b != "" {
+		c.Bin = filepath.Join(b, "poryscript")
+	}
+	if rp := os.Getenv("VERIF_REPO"); rp != "" {
+		repoFontConfig = filepath.Join(rp, "font_config.json")
+	}
+	if od := os.Getenv("VERIF_OUT"); od != "" {
+		outRoot = od
+	}
 	for i := 2; i < len(os.Args); i++ {
 		switch os.Args[i] {
 		case "--tier":
@@ -260,7 +279,7 @@ func main() {
 	c.Level = levels[id]
 	if c.Replay == "" {
 		// replay files of earlier runs of this check are stale
-		old, _ := filepath.Glob(filepath.Join(verifRoot, "replays", id+"-*.json"))
+		old, _ := filepath.Glob(filepath.Join(outDir(), "replays", id+"-*.json"))
 		for _, f := range old {
 			os.Remove(f)
 		}
